@@ -395,7 +395,7 @@ def plain_ref(u):
         s = urlsplit(u)
     except ValueError:
         return False
-    return not s.scheme and bool(s.path or s.netloc)
+    return not s.scheme and bool(s.path or s.netloc) and not s.path.startswith('//')
 
 
 # ------------------------------------------------------------ part A: URLs
@@ -743,8 +743,10 @@ def flatten_case(ctx, t, texts, minify, case, model_cases):
     if [(e[2]) for e in gk] != [(e[2]) for e in wk] or len(gk) != len(wk):
         ctx.violation('kept-imports', case, 'kept @import rules %r, expected %r' % (gk, wk), KNOWN_PRED)
     elif gk != wk:
-        bad = [(a, b) for a, b in zip(gk, wk) if a != b]
-        ctx.violation('kept-import-rebase', dict(case, bad=[[a[1], b[1]] for a, b in bad], root=t.root),
+        hrefs = [r[1] for r in proj if r[0] == 'import']
+        bad = [(a, b, h) for a, b, h in zip(gk, wk, hrefs) if a != b]
+        src = [[r[1], urljoin(loc, r[1])] for loc, sh in files.items() for r in sh if r[0] == 'import']
+        ctx.violation('kept-import-rebase', dict(case, bad=[[a[1], b[1], h] for a, b, h in bad], root=t.root, source_imports=src),
                       'a kept @import resolves to %s from the combined sheet, to %s from its own sheet' % (bad[0][0][1], bad[0][1][1]), KNOWN_PRED)
     url_oracle(ctx, t, [u for r in proj for u in doc_rule_urls(r)], case, 'rebase-flatten')
     # each target once per import edge while parsing, nothing at all while flattening
@@ -978,7 +980,7 @@ def _refetch_of_unresolved(kind, case, detail):
 
 def _kept_import_nested(kind, case, detail):
     """an @import kept inside an imported sheet of another directory keeps its relative href"""
-    return kind == 'kept-import-rebase'
+    return kind == 'kept-import-rebase' and all([h, want] in case['source_imports'] for got, want, h in case['bad'])
 
 
 def _import_after_namespace(kind, case, detail):
@@ -1000,11 +1002,11 @@ def run(ctx):
                        '@font-face, @page + margin rules, @media, nested functions; import trees over a virtual file system (depth <= 4, '
                        'parent/sibling/child directories, other host, absolute / scheme-relative / root-relative hrefs, media on edges, missing '
                        'targets, non-wrappable targets, cyclic graphs); distinct = distinct generated text; all non-trivial')
-    urls_part(ctx, 2500 if quick else 60000)
-    geturls_part(ctx, 250 if quick else 5000)
-    mc = flatten_part(ctx, 220 if quick else 5000, 80 if quick else 1500)
+    urls_part(ctx, 8000 if quick else 120000)
+    geturls_part(ctx, 700 if quick else 9000)
+    mc = flatten_part(ctx, 600 if quick else 9000, 250 if quick else 3500)
     run_flatten_model(ctx, mc, 'flatten')
-    mc2 = cycles_part(ctx, 40 if quick else 600)
+    mc2 = cycles_part(ctx, 100 if quick else 1200)
     run_flatten_model(ctx, mc2, 'flatten_cyclic')
 
 
